@@ -514,11 +514,16 @@ def decorate_bounds(draw, d, cfg):
         if draw(st.integers(0, 99)) < cfg.get("p_bound_expr", 40):
             tr["hi"] = new_hi(tr, ent, depth)
         visit(tr["of"], ent, depth + 1)
+    import copy
     for t in d["types"]:
         if t["kind"] == "defined":
+            t["of"] = copy.deepcopy(t["of"])
             visit(t["of"], None)
     for e in d["entities"]:
         for a in list(e["attrs"]):
+            if a.get("redecl"):
+                continue        # (expgen shares the type object with the re-declared attribute)
+            a["type"] = copy.deepcopy(a["type"])
             visit(a["type"], e)
     if not kinds and cfg.get("force_bound_expr", True) and d["entities"]:
         e = d["entities"][0]
